@@ -20,6 +20,7 @@ void scen_lfht_resize(void);
 void scen_lfht_seq(void);
 void scen_rculist(void);
 void scen_signals(void);
+void scen_fork(void);
 
 const struct usim_scenario usim_scenarios[] = {
 	{ "gp", "C01", scen_gp },
@@ -39,5 +40,6 @@ const struct usim_scenario usim_scenarios[] = {
 	{ "lfht_seq", "C08", scen_lfht_seq },
 	{ "rculist", "C18", scen_rculist },
 	{ "signals", "C19", scen_signals },
+	{ "fork", "C16", scen_fork },
 };
 const int usim_nscenarios = sizeof(usim_scenarios) / sizeof(usim_scenarios[0]);
